@@ -85,6 +85,10 @@ type expState struct {
 		Answered bool       `json:"answered"`
 		Pieces   []expPiece `json:"pieces"`
 		Swapped  bool       `json:"swapped"`
+		// DNS64 replies (Lease64.tla Reply64): what the AAAA reply handed to dns64 was, whether the A lookup ran, synthesis
+		Over  string `json:"over"`
+		Alook bool   `json:"alook"`
+		Synth bool   `json:"synth"`
 	} `json:"reply"`
 	Parked map[string]string `json:"parked"` // slot -> hop the model's request is waiting on
 	Live   map[string]int64  `json:"live"`   // key -> id of the live holder (0 none)
@@ -111,6 +115,9 @@ type input struct {
 	// and op Hit64 is a query from a DNS64-eligible client. Focus "c20" then judges C20's TtlMin only.
 	V6Key string `json:"v6Key"`
 	V4Key string `json:"v4Key"`
+	// FailTTL > 0: the failure dimension of Lease64.tla (ops Fail64 / HitFail): the cache's RFC 9520 back-off is
+	// pinned to FailTTL seconds (min = max) and focus "c20" also judges NeverOverFailure (cached failure)
+	FailTTL int64 `json:"failTTL"`
 }
 
 // ---------------------------------------------------------------- oracle --
@@ -158,6 +165,7 @@ type slot struct {
 }
 
 type command struct {
+	servfail bool // answer the hop with a plain SERVFAIL (Fail64: the cache records an RFC 9520 failure)
 	answer   bool
 	raw, aux int64
 	id       int64
@@ -388,7 +396,7 @@ func minT(a, b time.Time) time.Time {
 
 func (r *run) violate(pred, what string) {
 	// ComposedAD is C06/C01's (focus "ad"), TtlMin is C20's (focus "c20"), everything else C04's (focus "")
-	if owner := map[string]string{"ComposedAD": "ad", "TtlMin": "c20"}[pred]; owner != r.in.Focus {
+	if owner := map[string]string{"ComposedAD": "ad", "TtlMin": "c20", "NeverOverFailure": "c20"}[pred]; owner != r.in.Focus {
 		r.res.DriftNote("%s (judged by another check): %s", pred, what)
 		return
 	}
@@ -400,7 +408,7 @@ func (r *run) violate(pred, what string) {
 	r.res.Violate("c04/api/"+pred, fmt.Sprintf("%s %s after %v: %s", comp, pred, r.hist, what),
 		map[string]any{"driver": driver, "behaviour": r.bid, "history": r.hist, "events": r.events,
 			"input": map[string]any{"chain": r.in.Chain, "negKey": r.in.NegKey, "scopedKey": r.in.ScopedKey, "ecsCap": r.in.EcsCap,
-				"cutMax": r.in.CutMax, "v6Key": r.in.V6Key, "v4Key": r.in.V4Key, "focus": r.in.Focus, "behaviours": []any{map[string]any{"id": r.bid, "steps": r.cur.Steps[:len(r.hist)]}}}})
+				"cutMax": r.in.CutMax, "v6Key": r.in.V6Key, "v4Key": r.in.V4Key, "failTTL": r.in.FailTTL, "focus": r.in.Focus, "behaviours": []any{map[string]any{"id": r.bid, "steps": r.cur.Steps[:len(r.hist)]}}}})
 }
 
 func argInt(a any) int64 {
@@ -437,6 +445,11 @@ func (d *downstream) ServeDNS(ctx context.Context, ch *middleware.Chain) {
 	cmd := <-s.cmd
 	if cmd.answer {
 		_ = ch.Writer.WriteMsg(d.r.answerFor(req, hop, cmd.raw, cmd.aux, cmd.id))
+	} else if cmd.servfail {
+		m := new(dns.Msg)
+		m.SetRcode(req, dns.RcodeServerFailure) // plain: no EDE, no OPT (the client sent none)
+		m.RecursionAvailable = true
+		_ = ch.Writer.WriteMsg(m)
 	}
 	ch.Cancel()
 }
@@ -643,6 +656,11 @@ func (r *run) launch(sl *slot, key, route string) {
 	sl.w = mock.NewWriter("udp", client)
 	sl.active = true
 	ctx := middleware.WithResponseMeta(context.Background(), &sl.meta)
+	if sl.d64 {
+		// as the server does it: the chain owns the request's ResponseMeta (&ch.Meta, established by Chain.Next);
+		// a wire-born request that dns64 materialises continues on a detached context with a COPY of it
+		ctx = context.Background()
+	}
 	ch := middleware.NewChain(r.front)
 	sl.wreq = nil
 	switch route {
@@ -850,6 +868,7 @@ func (r *run) tick(d int64) {
 			}
 		}
 	}
+	r.d64.tick(dd)
 	r.vnow += d
 }
 
@@ -972,6 +991,9 @@ func (r *run) doStep(st step, exp *expState) (drift string, err error) {
 		if st.Op == "CacheWrite" {
 			raw, aux := argInt(a[1]), argInt(a[2])
 			sl.pend = append(sl.pend, pending{lvl: sl.lvl, key: sl.hop, id: st.Pre, raw: raw, aux: aux})
+			if sl.hop == r.in.V6Key && sl.lvl == 1 && r.in.V6Key != "" {
+				r.d64.failClear() // a useful answer reaches the client path through the cache writer: the record is dropped
+			}
 			sl.cmd <- command{answer: true, raw: raw, aux: aux, id: st.Pre}
 		} else {
 			sl.failed = true
@@ -1014,6 +1036,9 @@ func (r *run) doStep(st step, exp *expState) (drift string, err error) {
 			r.store.SetFromResponseScoped(r.key64(key), resp, scope, cut, 0)
 		} else {
 			r.store.SetFromResponseWithCut(resp, false, cut, 0x77)
+			if key == r.in.V6Key && key != "" {
+				r.d64.failClear() // Store.resetQuestionFailure: an unscoped write of a useful answer drops the record
+			}
 		}
 		r.stored(key, st.Pre, raw, aux, time.Now(), cut, ev)
 	case "CutWrite", "ProofWrite":
@@ -1090,7 +1115,11 @@ func (r *run) doStep(st step, exp *expState) (drift string, err error) {
 		pcs := r.complete(sl, ev, where)
 		return r.compareReply(exp, pcs, sl.w.Written(), where), nil
 	case "Hit64":
-		return r.stepHit64(argStr(a[0]), exp, ev, where)
+		return r.stepHit64(argStr(a[0]), false, exp, ev, where)
+	case "Fail64":
+		return r.stepHit64(argStr(a[0]), true, exp, ev, where)
+	case "HitFail":
+		return r.stepHitFail(argStr(a[0]), exp, ev, where)
 	case "PrefetchStart":
 		key := argStr(a[0])
 		e, ok := r.store.Lookup(question(key))
@@ -1154,6 +1183,9 @@ func (r *run) doStep(st step, exp *expState) (drift string, err error) {
 			r.c.Purge(dns.Question{Name: "m.zd.", Qtype: dns.TypeA, Qclass: dns.ClassINET})
 		default:
 			r.c.Purge(question(q).Question[0])
+			if q == r.in.V6Key && q != "" {
+				r.d64.failClear()
+			}
 		}
 	case "TickA":
 		r.tick(argInt(a[0]))
@@ -1209,6 +1241,11 @@ func (r *run) runBehaviour(b behaviour) error {
 	r.cur = &b
 	cfg := &config.Config{CacheSize: 1024, Expire: uint32(r.in.CutMax), RateLimit: 0, Prefetch: 0}
 	cfg.ECS.CacheLimitTTL.Duration = time.Duration(r.in.EcsCap) * time.Second
+	if r.in.FailTTL > 0 {
+		// one back-off length: a repeated failure does not grow it (the model has no streak counter)
+		cfg.RecursionFirewall.FailureCacheMinTTL.Duration = time.Duration(r.in.FailTTL) * time.Second
+		cfg.RecursionFirewall.FailureCacheMaxTTL.Duration = time.Duration(r.in.FailTTL) * time.Second
+	}
 	r.c = mcache.New(cfg)
 	defer r.c.Stop()
 	r.store = r.c.VerifC04Store()
